@@ -83,9 +83,12 @@ pub trait USet: Sized + Clone + PartialEq + std::fmt::Debug + Send + Sync + 'sta
     /// (word, Some((sz, cap, bits))) without copying the array
     fn header(&self) -> (usize, Option<(usize, usize, u64)>);
     /// after `pos` calls of next(): everything next() still yields, plus two extra calls that must be None
-    fn nexts(&self, which: It, pos: usize) -> (Vec<u64>, bool);
+    /// (what next() yields after `pos` calls, exhausted-stays-exhausted and clone-agrees flag, what the first `pos` calls yielded)
+    fn nexts(&self, which: It, pos: usize) -> (Vec<u64>, bool, Vec<u64>);
     /// after `pos` calls of next(): the shortcut `kind`
-    fn shortcut(&self, which: It, pos: usize, kind: &str) -> Option<u64>;
+    /// the shortcut's answer, and (consuming iterators, which work on a clone whose order the properties do not fix)
+    /// what a clone of the same positioned iterator yields by plain `next()`
+    fn shortcut(&self, which: It, pos: usize, kind: &str) -> (Option<u64>, Option<Vec<u64>>);
     fn union_ref(a: &Self, b: &Self) -> Self;
     fn union_own(a: Self, b: &Self) -> Self;
     fn diff_ref(a: &Self, b: &Self) -> Self;
@@ -138,15 +141,18 @@ macro_rules! sc_body {
 macro_rules! nexts_body {
     ($it:expr, $pos:expr) => {{
         let mut it = $it;
+        let mut p = vec![];
         for _ in 0..$pos {
-            it.next();
+            if let Some(x) = it.next() {
+                p.push(x as u64);
+            }
         }
         let mut v = vec![];
         while let Some(x) = it.next() {
             v.push(x as u64);
         }
         let fused = it.next().is_none() && it.next().is_none();
-        (v, fused)
+        (v, fused, p)
     }};
 }
 
@@ -259,36 +265,48 @@ macro_rules! impl_uset {
                 let (w, h) = self.verif_header();
                 (w, h.map(|(a, b, c)| (a, b, c as u64)))
             }
-            fn nexts(&self, which: It, pos: usize) -> (Vec<u64>, bool) {
+            fn nexts(&self, which: It, pos: usize) -> (Vec<u64>, bool, Vec<u64>) {
                 match which {
                     It::Iter => nexts_body!(self.iter(), pos),
                     It::Into => nexts_body!(self.clone().into_iter(), pos),
+                    It::IntoClone => {
+                        let mut it = self.clone().into_iter();
+                        let mut p = vec![];
+                        for _ in 0..pos {
+                            if let Some(x) = it.next() {
+                                p.push(x as u64);
+                            }
+                        }
+                        let c = it.clone();
+                        let a = nexts_body!(it, 0);
+                        let b = nexts_body!(c, 0);
+                        // "yields the same remaining items": compared as sets, the order is not part of the property
+                        let (mut sa, mut sb) = (a.0.clone(), b.0.clone());
+                        sa.sort();
+                        sb.sort();
+                        (b.0, a.1 && b.1 && sa == sb, p)
+                    }
+                }
+            }
+            fn shortcut(&self, which: It, pos: usize, kind: &str) -> (Option<u64>, Option<Vec<u64>>) {
+                match which {
+                    It::Iter => (sc_body!(self.iter(), pos, kind, $T), None),
+                    It::Into => {
+                        let mut it = self.clone().into_iter();
+                        for _ in 0..pos {
+                            it.next();
+                        }
+                        let plain: Vec<u64> = it.clone().map(|x| x as u64).collect();
+                        (sc_body!(it, 0, kind, $T), Some(plain))
+                    }
                     It::IntoClone => {
                         let mut it = self.clone().into_iter();
                         for _ in 0..pos {
                             it.next();
                         }
                         let c = it.clone();
-                        let a = nexts_body!(it, 0);
-                        let b = nexts_body!(c, 0);
-                        if a != b {
-                            (vec![u64::MAX; 3], false)
-                        } else {
-                            b
-                        }
-                    }
-                }
-            }
-            fn shortcut(&self, which: It, pos: usize, kind: &str) -> Option<u64> {
-                match which {
-                    It::Iter => sc_body!(self.iter(), pos, kind, $T),
-                    It::Into => sc_body!(self.clone().into_iter(), pos, kind, $T),
-                    It::IntoClone => {
-                        let mut it = self.clone().into_iter();
-                        for _ in 0..pos {
-                            it.next();
-                        }
-                        sc_body!(it.clone(), 0, kind, $T)
+                        let plain: Vec<u64> = it.map(|x| x as u64).collect();
+                        (sc_body!(c, 0, kind, $T), Some(plain))
                     }
                 }
             }
